@@ -130,7 +130,7 @@ Proof.
     as (fr & E & W); auto; try lia.
   all: try (split; [reflexivity|oks]).
   all: try (unfold ascii_msearch, crlf; cbn [app]; oks).
-  all: try (vm_compute; lia).
+  all: try (match goal with |- (_ <= _)%nat => vm_compute; lia end).
   exists fr. split; [exact E|]. apply (wf_udp4_weaken _ _ _ _ _ _ ascii_msearch); auto.
 Qed.
 
